@@ -5,4 +5,4 @@ Require Extraction.
 Require Import ExtrOcamlBasic.
 Extraction "c05_model.ml" coop_result asym_e3
   (* engine E4 (controlled multi-vCPU replay): the proved step function and the command layer over it *)
-  init_state step cmd_labels f23_class phys_clash getth getvc.
+  init_state step cmd_labels f23_class phys_clash getth getvc offline.
